@@ -122,7 +122,7 @@ def run_shard(spec, col):
     quick = col.tier == 'quick'
     if spec['k'] == 0:
         object_member_names(col)
-    progs = build_programs(lang, col, 12 if quick else 220, col.shard_seed('gen'))
+    progs = build_programs(lang, col, 20 if quick else 220, col.shard_seed('gen'))
     judge_programs(progs, col, n_batches=4 if quick else 70, seed=col.shard_seed('batch'))
 
 
